@@ -85,7 +85,11 @@ func RunEpisodes(r *ev.Result, b run.Batch, seed int64, scenarios []string) {
 func RunLife(r *ev.Result, b run.Batch, seed int64, prop string, n int) {
 	var sc []string
 	for i := 0; i < n; i++ {
-		sc = append(sc, "life")
+		if i%2 == 1 {
+			sc = append(sc, "life-wtdown") // the same life with a WattTime service that answers 503 to everything
+		} else {
+			sc = append(sc, "life")
+		}
 	}
 	runEpisodes(r, b, seed, sc, prop+":")
 }
@@ -214,10 +218,10 @@ func runEpisodes(r *ev.Result, b run.Batch, seed int64, scenarios []string, only
 		}
 		r.Count("prodwt.episodes", 1)
 		r.Count("prodwt.scenario."+sc, 1)
-		if sc == "life" || sc == "clientlife" {
+		if strings.HasPrefix(sc, "life") || sc == "clientlife" {
 			for k, v := range result {
 				if f, ok := v.(float64); ok {
-					r.Count("prodwt."+sc+"."+k, int64(f))
+					r.Count("prodwt."+strings.TrimSuffix(sc, "-wtdown")+"."+k, int64(f))
 				}
 			}
 			r.Nontrivial(fmt.Sprintf("prodwt/%s/%d", sc, es))
